@@ -76,6 +76,11 @@ CHECKS = {
          "All token sequences over three alphabets are explored to depth 9/11/16 (quick) and 10/13/19 (thorough): every explored sequence is parsed by wkt.Unmarshal and must not panic (the parser's 14 internal assertions are therefore unreachable within the bound), an error must render with a position inside the input, an accepted geometry must be well formed, of one layout, with lines >=2 and closed rings >=4 points and must survive re-encoding; accept/reject and the geometry must agree with the reference reader. Prefixes are pruned only when the parse failed strictly before the last token. Also all single-token mutations of valid corpus texts and all short byte strings over a 20-byte alphabet.",
          "Bounded by depth per alphabet; byte strings <=5 bytes. Error positions taken from the rendered SyntaxError message.",
          "DESIGN.md section 2, C06"),
+ "C07": ("exploration",
+         "bounded exhaustive enumeration of geometries/features and grammar-directed enumeration of JSON documents against an independent RFC 7946 reader",
+         "Every geometry of the shape universe in six layouts, collections with mixed layouts and nesting, and a float lattice is marshalled, read by an independent RFC 7946 reader (same type, nesting, numbers) and decoded back through Unmarshal and Encode/Decode, with the format carve-outs computed from the model (layout from the first position, empties come back XY, arity mismatch must error). Features and FeatureCollections are round-tripped over every combination of id, bbox, properties and geometry (incl. null). Totality is checked on a complete grammar-directed menu of documents (type x coordinates x geometries; Feature and FeatureCollection member menus) plus every prefix and single-byte deletion of valid documents, decoded as geometry, Feature and FeatureCollection.",
+         "Bounded: universe shapes, menus as listed; arbitrary byte noise beyond single deletions not explored. DefaultLayout left at XY.",
+         "DESIGN.md section 2, C07"),
  "C08": ("model_checking",
          "explicit-state BFS over Extend histories on real Bounds values plus exhaustive enumeration of geometries and box pairs against a per-dimension reference fold",
          "Bounds() of every geometry of the shape universe and of every collection of <=3 members (mixed layouts, empty members, nested collections) is compared per semantic dimension (X,Y,Z,M located via ZIndex/MIndex) with a reference fold, together with IsEmpty, Bounds.Polygon and the GeoJSON bbox; all Extend histories up to depth 4/5 from five start layouts over a 12-geometry alphabet are executed on real Bounds values, each reached state compared with the fold over its multiset and with every other order reaching that multiset; Overlaps/OverlapsPoint are compared with closed-interval arithmetic on all pairs of small boxes incl. empty ones.",
@@ -86,6 +91,11 @@ CHECKS = {
          "For every geometry of the shape universe (three constructions incl. spare capacity and empty-non-nil slices), Coord and Bounds: the clone equals the original (type, layout, SRID, structure, bits), and after every step of every mutation history up to depth 2/3 over 7 mutators x {original, clone} the complete storage state (incl. spare-capacity contents) of the side not operated on is unchanged.",
          "Bounded: depth <=3, universe shapes. nil-vs-empty identity of clone slices not demanded.",
          "DESIGN.md section 2, C16"),
+ "C18": ("exploration",
+         "bounded exhaustive enumeration of boundary floats x digit limits x geometry kinds with exact decimal/rational error checking",
+         "For d in 0..15, a lattice of few-bit floats over 141 binary exponents, every decimal tie (m+1/2)*10^-d with its +-2 ulp neighbours, powers of ten and extreme values are encoded with the WKT and GeoJSON max-decimal-digits options (GeoJSON with and without bbox in both option orders) in one valid geometry per kind and layout; every emitted number must have the restricted form, no trailing zero, and differ from the exact ordinate (or exact bbox extreme) by at most half a unit in the d-th place, and the output must parse to the same type, structure and ordinate count.",
+         "Bounded: lattice as listed. Trusted: math/big, encoding/json.",
+         "DESIGN.md section 2, C18"),
 }
 
 def main():
